@@ -189,8 +189,15 @@ def real_groups(tier, seed):
 HSTEP_FNS = ["hmax_ps", "hmin_ps", "hmax_pd", "hmin_pd", "sum_ps", "prod_ps", "sum_pd", "prod_pd", "sum_epi32", "prod_epi32",
              "hmax256_ps", "hmin256_ps", "hmax256_pd", "hmin256_pd", "sum256_ps", "prod256_ps", "sum256_pd", "prod256_pd"]
 
+HSPEC_FNS = ["norm_float_4", "norm_float_9", "norm_double_4", "norm_double_9", "trace_float_2x2", "trace_float_3x3", "trace_double_2x2", "trace_double_3x3",
+             "det_float_2", "det_float_3", "det_double_2", "det_double_3", "doublecontract_float_2x2", "doublecontract_float_3x3",
+             "doublecontract_double_2x2", "doublecontract_double_3x3"]
+
 def hstep_group(isa, ds):
     calls = ["hs_%s(%du);" % (name, ds) for name in HSTEP_FNS if not ("256" in name and isa in ("sse2", "sse42"))]
+    if isa in ("avx", "avx2", "avx512"):
+        # the intrinsic specialisations of _norm / _trace / _det / _doublecontract exist under AVX
+        calls += ["hp_%s(%du);" % (name, ds) for name in HSPEC_FNS]
     return {"key": "%s/hstep" % isa, "header": "reduce_hstep.h", "isa": isa, "opt": "-O2", "calls": calls}
 
 def _filtered(fn):
@@ -258,7 +265,10 @@ def run(tier, seed):
     v.assumptions = ASSUMPTIONS + ["seeds read from the source (X1): min -> %s, max -> %s" % (seeds["min"], seeds["max"])]
     regen_reports = {}
     def regen(log):
+        from props import c16_xlate
         regen_reports.update(xlate_simd.regenerate(xlate_simd.ISAS, core.REPO, log))
+        for isa, r in c16_xlate.regenerate(core.REPO, log).items():
+            regen_reports["spec_" + isa] = r
     ok, info = core.proof_stage(v, PID, thorough=(tier == "thorough"), regen=regen)
     v.cov["proof"] = {k: info.get(k) for k in ("build_ok", "problems", "failed_modules", "errors", "leanchecker", "log")}
     v.cov["generated"] = {isa: {"translated": len(r.get("translated", ())), "untranslated": len(r.get("untranslated", ())), "rewritten": bool(r.get("changed"))}
@@ -394,6 +404,8 @@ def sym_call_of(inp):
     if cmd == "hstep":
         return {"key": "replay", "header": "reduce_hstep.h", "isa": d["cfg"], "opt": "-O2",
                 "calls": ["hs_%s(%su);" % (d["fn"], d["ds"])]}
+    if cmd == "hspec":
+        return {"key": "replay", "header": "reduce_hstep.h", "isa": d["cfg"], "opt": "-O2", "calls": ["hp_%s(%su);" % (d["fn"], d["ds"])]}
     raise ValueError("cannot rebuild " + inp)
 
 def replay(path):
